@@ -193,11 +193,13 @@ func (h *Hist) genTx() *histTx {
 		c := app.CommitmentKeeper.GetCommitments(ctx, u.Addr)
 		have := c.GetCommittedAmountForDenom(p.ShareDen)
 		var sh math.Int
-		switch r.Intn(6) {
+		switch r.Intn(7) {
 		case 0:
 			sh = have
 		case 1:
 			sh = have.AddRaw(1)
+		case 2:
+			sh = h.amt(1, 10_000_000_000_000) // dust: shares worth less than one base unit of some or every asset
 		default:
 			sh = have.Mul(h.amt(1, 1_000_000)).Quo(math.NewInt(1_000_000))
 		}
@@ -219,6 +221,9 @@ func (h *Hist) genTx() *histTx {
 			recipient = h.user().Addr.String()
 		}
 		a := h.amt(1, 20_000_000_000)
+		if r.Intn(4) == 0 {
+			a = h.amt(1, 30_000) // dust: fee skims and conversions that truncate to zero
+		}
 		switch kind {
 		case "amm.swapIn":
 			routes := []ammtypes.SwapAmountInRoute{{PoolId: p.Id, TokenOutDenom: dout}}
@@ -358,7 +363,7 @@ func (h *Hist) genTx() *histTx {
 			colDenom = "uatom"
 		}
 		a := h.amt(1_000_000, 5_000_000_000)
-		lev := []string{"1.5", "2", "3", "5"}[r.Intn(4)]
+		lev := []string{"1.5", "2", "3", "5", "0", "1"}[r.Intn(6)] // 0 = pure collateral top-up of an existing position
 		price := h.std.Prices["ATOM"]
 		pos := perptypes.Position_LONG
 		tp := price.Mul(D([]string{"1.5", "2", "3", "5"}[r.Intn(4)]))
@@ -542,13 +547,17 @@ func (h *Hist) genTx() *histTx {
 		tx.f = J{"to": to, "coin": []string{d, a.String()}}
 	}
 	// fees: mostly none, sometimes uusdc / uatom / uelys so that masterchef has gas fees to convert
+	feeMax := int64(2_000_000)
+	if r.Intn(8) == 0 {
+		feeMax = 5_000_000_000 // a fee large enough that its end-block conversion moves a pool's price
+	}
 	switch r.Intn(6) {
 	case 0:
-		tx.req.Fee = sdk.NewCoins(coin("uusdc", h.amt(1, 2_000_000)))
+		tx.req.Fee = sdk.NewCoins(coin("uusdc", h.amt(1, feeMax)))
 	case 1:
-		tx.req.Fee = sdk.NewCoins(coin("uatom", h.amt(1, 2_000_000)))
+		tx.req.Fee = sdk.NewCoins(coin("uatom", h.amt(1, feeMax)))
 	case 2:
-		tx.req.Fee = sdk.NewCoins(coin("uelys", h.amt(1, 2_000_000)))
+		tx.req.Fee = sdk.NewCoins(coin("uelys", h.amt(1, feeMax)))
 	}
 	tx.f["fee"] = coinsArr(tx.req.Fee)
 	tx.f["signer"] = tx.req.Signer.Addr.String()
@@ -571,8 +580,8 @@ func (h *Hist) priceTx() *histTx {
 	r := h.r
 	mults := []string{"0.7", "0.9", "0.97", "0.99", "1", "1.01", "1.03", "1.1", "1.3"}
 	p := h.std.Prices["ATOM"].Mul(D(mults[r.Intn(len(mults))]))
-	if p.LT(D("0.5")) {
-		p = D("0.5")
+	if p.LT(D("0.05")) {
+		p = D("0.05")
 	}
 	if p.GT(D("50")) {
 		p = D("50")
@@ -703,6 +712,56 @@ func emitBlock(w *World, out *Out, hi int, txs []*histTx, dt time.Duration, stat
 	return true
 }
 
+// batchClose: [price move, leveragelp ClosePositions over all positions, perpetual ClosePositions over all positions]
+func (h *Hist) batchClose() []*histTx {
+	w, r := h.w, h.r
+	ctx := w.Ctx()
+	mult := []string{"0.6", "0.75", "0.85", "1.25", "1.5"}[r.Intn(5)]
+	h.std.Prices["ATOM"] = h.std.Prices["ATOM"].Mul(D(mult))
+	if h.std.Prices["ATOM"].LT(D("0.05")) {
+		h.std.Prices["ATOM"] = D("0.05")
+	}
+	if h.std.Prices["ATOM"].GT(D("50")) {
+		h.std.Prices["ATOM"] = D("50")
+	}
+	out := []*histTx{h.priceTxFixed()}
+	bot := h.user()
+	var lpLiq, lpSl []*lptypes.PositionRequest
+	for _, p := range w.App.LeveragelpKeeper.GetAllPositions(ctx) {
+		// an id may appear in one list only (ValidateBasic)
+		if r.Intn(3) == 0 {
+			lpSl = append(lpSl, &lptypes.PositionRequest{Address: p.Address, Id: p.Id})
+		} else {
+			lpLiq = append(lpLiq, &lptypes.PositionRequest{Address: p.Address, Id: p.Id})
+		}
+	}
+	if len(lpLiq) > 0 {
+		out = append(out, &histTx{kind: "lp.closePositions", f: J{"liquidate": len(lpLiq), "stopLoss": len(lpSl), "batch": true, "signer": bot.Addr.String(), "fee": [][]string{}},
+			req: TxReq{Signer: bot, Msgs: []sdk.Msg{&lptypes.MsgClosePositions{Creator: bot.Addr.String(), Liquidate: lpLiq, StopLoss: lpSl}}}})
+	}
+	bot2 := h.user()
+	if bot2 == bot {
+		return out
+	}
+	var liq, sl, tp []perptypes.PositionRequest
+	for _, m := range w.App.PerpetualKeeper.GetAllMTPs(ctx) {
+		pr := perptypes.PositionRequest{Address: m.Address, Id: m.Id}
+		switch r.Intn(4) {
+		case 0:
+			sl = append(sl, pr)
+		case 1:
+			tp = append(tp, pr)
+		default:
+			liq = append(liq, pr)
+		}
+	}
+	if len(liq) > 0 {
+		out = append(out, &histTx{kind: "perp.closePositions", f: J{"liquidate": len(liq), "stopLoss": len(sl), "takeProfit": len(tp), "batch": true, "signer": bot2.Addr.String(), "fee": [][]string{}},
+			req: TxReq{Signer: bot2, Msgs: []sdk.Msg{&perptypes.MsgClosePositions{Creator: bot2.Addr.String(), Liquidate: liq, StopLoss: sl, TakeProfit: tp}}}})
+	}
+	return out
+}
+
 // priceTxFixed feeds the prices currently in std.Prices (no random move).
 func (h *Hist) priceTxFixed() *histTx {
 	var feeds []oracletypes.FeedPrice
@@ -720,7 +779,12 @@ func runHist(t *testing.T, seed int64, n int, out *Out) {
 	for hi := 0; hi < nHist; hi++ {
 		hseed := seed*100 + int64(hi)
 		w := NewWorld(t, hseed, 7)
-		std := w.SeedStandard()
+		// one history in four runs in a world where uatom is worth less than uusdc per base unit
+		atomPrice := []string{"5", "5", "5", "0.25"}[int(hseed)%4]
+		if v := os.Getenv("VERIF_ATOM_PRICE"); v != "" {
+			atomPrice = v
+		}
+		std := w.SeedStandardAt(D(atomPrice))
 		h := &Hist{w: w, std: std, r: rand.New(rand.NewSource(hseed)), focus: focus}
 		// seed some claimed Eden / EdenB so commitment ops have something to work with
 		w.Seed(func(ctx sdk.Context) {
@@ -730,6 +794,24 @@ func runHist(t *testing.T, seed int64, n int, out *Out) {
 				c.AddClaimed(sdk.NewCoin("uedenb", math.NewInt(1_000_000_000)))
 				w.App.CommitmentKeeper.SetCommitments(ctx, c)
 			}
+		})
+		// governance-permitted variants of the leveragelp fallback sweep: every block (default), one position per block,
+		// every 7th block, or off (then only bots' ClosePositions messages liquidate)
+		sweep := []string{"default", "default", "one-per-block", "every-7-blocks", "off"}[h.r.Intn(5)]
+		if v := os.Getenv("VERIF_LPSWEEP"); v != "" {
+			sweep = v
+		}
+		w.Seed(func(ctx sdk.Context) {
+			p := w.App.LeveragelpKeeper.GetParams(ctx)
+			switch sweep {
+			case "one-per-block":
+				p.NumberPerBlock = 1
+			case "every-7-blocks":
+				p.EpochLength = 7
+			case "off":
+				p.FallbackEnabled = false
+			}
+			_ = w.App.LeveragelpKeeper.SetParams(ctx, &p)
 		})
 		r0 := w.Block(5*time.Second, nil)
 		if r0.Err != nil || r0.Panicked {
@@ -779,6 +861,11 @@ func runHist(t *testing.T, seed int64, n int, out *Out) {
 				if tx := h.genTx(); tx != nil {
 					txs = append(txs, tx)
 				}
+			}
+			if h.r.Intn(25) == 0 && outage == 0 {
+				// a sharp price move and, IN THE SAME BLOCK (after the begin-blocker sweep has run), one third-party message
+				// naming every open position in every list: several positions of one pool close inside one message
+				txs = append(txs, h.batchClose()...)
 			}
 			dt := []time.Duration{5 * time.Second, 5 * time.Second, 6 * time.Second, time.Minute, time.Hour, 2 * time.Hour}[h.r.Intn(6)]
 			if faults && h.r.Intn(10) == 0 {
